@@ -129,3 +129,84 @@ Proof.
 Qed.
 
 End Construct.
+
+(* ---- the constructed array holds exactly the appended values, in order ---- *)
+Lemma firstn_set_nth_snoc : forall (l : list val) len x, len < length l ->
+  firstn (len + 1) (set_nth len x l) = firstn len l ++ [x].
+Proof.
+  induction l as [|y l IH]; intros len x H; cbn in H; try lia.
+  destruct len; cbn [set_nth firstn Nat.add app]. auto. f_equal. apply IH. lia.
+Qed.
+Lemma window_snoc : forall off len x (cells : list val), off + len < length cells ->
+  window off (len + 1) (set_nth (off + len) x cells) = window off len cells ++ [x].
+Proof.
+  intros. unfold window. rewrite skipn_set_nth_ge by lia. replace (off + len - off) with len by lia.
+  apply firstn_set_nth_snoc. rewrite skipn_length. lia.
+Qed.
+Lemma firstn_app_exact : forall (a b : list val) n, length a = n -> firstn n (a ++ b) = a.
+Proof. intros. subst. rewrite firstn_app, Nat.sub_diag, firstn_all. cbn. apply app_nil_r. Qed.
+
+Lemma firstn_snoc_exact : forall (ys : list val) x r, firstn (length ys + 1) (ys ++ x :: r) = ys ++ [x].
+Proof. induction ys; intros; cbn; auto. f_equal. apply IHys. Qed.
+
+Definition holds (s : st) (acc : val) (ys : list val) : Prop :=
+  exists a off len cap, acc = VArr a off len cap /\ length ys = len /\
+    ((cap = 0 /\ len = 0) \/
+     (exists cells, nth_error (hp s) a = Some (CArr cells) /\ window off len cells = ys /\
+                    off + cap <= length cells /\ len <= cap)).
+
+Section Value.
+Variable grow : nat -> nat -> nat.
+
+Lemma op_append_holds : forall acc ys x s acc' s',
+  holds s acc ys -> run (op_append grow acc x) s = Some (acc', s') -> holds s' acc' (ys ++ [x]).
+Proof.
+  intros acc ys x s acc' s' (a & off & len & cap & -> & Hl & H) E.
+  unfold op_append, go_append in E. cbn [length Nat.eqb] in E.
+  destruct (len + 1 <=? cap) eqn:Fit.
+  - apply Nat.leb_le in Fit. destruct H as [[H0 _]|(cells & Ea & Hw & Hc & Hle)]; [lia|].
+    cbn [run] in E. rewrite Ea in E. cbn [run splice] in E.
+    destruct (a <? length (hp s)) eqn:La; try discriminate. apply Nat.ltb_lt in La.
+    cbn [run] in E. inversion E; subst; clear E.
+    exists a, off, (length ys + 1), cap. split; auto. split. rewrite app_length; cbn; lia.
+    right. exists (set_nth (off + length ys) x cells). cbn [hp].
+    split. apply nth_error_set_nth_same; auto.
+    split. rewrite window_snoc by lia. rewrite Hw. reflexivity.
+    split. rewrite set_nth_length; auto. lia.
+  - apply Nat.leb_gt in Fit. rewrite run_bind in E.
+    assert (run (elems (VArr a off len cap)) s = Some (ys, s)) as Eel.
+    { unfold elems. destruct (len =? 0) eqn:L0.
+      - apply Nat.eqb_eq in L0. subst len. destruct ys; [reflexivity|discriminate].
+      - apply Nat.eqb_neq in L0. destruct H as [[_ H0]|(cells & Ea & Hw & Hc & Hle)]; [lia|].
+        cbn [run]. rewrite Ea. cbn [run]. rewrite Hw. reflexivity. }
+    rewrite Eel in E. cbn [run] in E. inversion E; subst; clear E.
+    set (c' := Nat.max (grow cap (length ys + 1)) (length ys + 1)).
+    exists (length (hp s)), 0, (length ys + 1), c'. split; auto. split. rewrite app_length; cbn; lia.
+    right. eexists. cbn [hp]. split. rewrite nth_error_app2 by lia. rewrite Nat.sub_diag. reflexivity.
+    split. unfold window. cbn [skipn]. apply firstn_snoc_exact.
+    split. rewrite app_length. cbn [length]. rewrite repeat_length. unfold c'. lia. unfold c'. lia.
+Qed.
+
+Lemma arr_construct_from_holds : forall xs acc ys s r s',
+  holds s acc ys -> run (arr_construct_from grow acc xs) s = Some (r, s') -> holds s' r (ys ++ xs).
+Proof.
+  induction xs; intros acc ys s r s' H E; cbn [arr_construct_from] in E.
+  - cbn in E; inversion E; subst. rewrite app_nil_r; auto.
+  - rewrite run_bind in E. destruct (run (op_append grow acc a) s) as [[acc' s1]|] eqn:E1; try discriminate.
+    eapply op_append_holds in E1; eauto. apply IHxs with (ys := ys ++ [a]) in E; auto.
+    rewrite <- app_assoc in E. exact E.
+Qed.
+
+(* `[q]` yields exactly the outputs of q, in order *)
+Theorem arr_construct_value : forall xs s r s',
+  run (arr_construct grow xs) s = Some (r, s') -> run (elems r) s' = Some (xs, s').
+Proof.
+  intros xs s r s' E. apply arr_construct_from_holds with (ys := []) in E.
+  2:{ exists 0, 0, 0, 0. cbn. auto. }
+  cbn [app] in E. destruct E as (a & off & len & cap & -> & Hl & H). unfold elems.
+  destruct (len =? 0) eqn:L0.
+  - apply Nat.eqb_eq in L0. subst. destruct xs; [reflexivity|discriminate].
+  - apply Nat.eqb_neq in L0. destruct H as [[_ H0]|(cells & Ea & Hw & _)]; [lia|].
+    cbn [run]. rewrite Ea. cbn [run]. rewrite Hw. reflexivity.
+Qed.
+End Value.
